@@ -57,6 +57,9 @@ type DiffItem struct {
 	Shape string
 	Kind  string // missing | phantom | value-changed | count-changed | unknown-changed
 	Note  string
+	// InWKT: the difference lies inside a google.protobuf.* (well-known type) sub-message, which csproto
+	// delegates to the owning runtime's own codec
+	InWKT bool
 }
 
 func (d DiffItem) String() string { return d.Kind + "@" + d.Shape }
@@ -66,6 +69,10 @@ func Diff(want, got protoreflect.Message) []DiffItem {
 	var out []DiffItem
 	diffMsg("", want, got, &out, 0)
 	return out
+}
+
+func isWKT(m protoreflect.Message) bool {
+	return m.Descriptor().ParentFile() != nil && m.Descriptor().ParentFile().Package() == "google.protobuf"
 }
 
 func valueBytes(fd protoreflect.FieldDescriptor, v protoreflect.Value) string {
@@ -103,6 +110,14 @@ func fieldsOfBoth(a, b protoreflect.Message) []protoreflect.FieldDescriptor {
 }
 
 func diffMsg(path string, want, got protoreflect.Message, out *[]DiffItem, depth int) {
+	if isWKT(want) {
+		n := len(*out)
+		defer func() {
+			for i := n; i < len(*out); i++ {
+				(*out)[i].InWKT = true
+			}
+		}()
+	}
 	for _, fd := range fieldsOfBoth(want, got) {
 		p := path + string(fd.Name())
 		sh := Shape(fd)
@@ -191,8 +206,14 @@ func clipB(b []byte) []byte {
 }
 
 // Text renders a dynamic message for witnesses.
-func Text(m *dynamicpb.Message) string {
-	s := prototext.MarshalOptions{Multiline: false, AllowPartial: true}.Format(m)
+func Text(m *dynamicpb.Message) (s string) {
+	defer func() {
+		if r := recover(); r != nil { // prototext panics on some malformed unknown fields
+			b, _ := MarshalRef(m)
+			s = fmt.Sprintf("(unprintable; wire hex %x)", clipB(b))
+		}
+	}()
+	s = prototext.MarshalOptions{Multiline: false, AllowPartial: true}.Format(m)
 	s = strings.Join(strings.Fields(s), " ")
 	if len(s) > 1500 {
 		s = s[:1500] + "..."
